@@ -11,6 +11,16 @@
 //! submission) and `Ring::poll`. Every history ends by dropping whatever is left and polling
 //! the ring, with the ring still alive.
 //!
+//! The kernel may also refuse a pipe request with EINVAL (IORING_OP_PIPE does not exist before
+//! Linux 6.16): `PipeOp::fallback` then calls the REAL pipe2(2) from inside the poll of the
+//! future. The two numbers are real descriptors of the harness process; the driver learns them
+//! by comparing the process descriptor table (fcntl F_GETFD) before and after that poll —
+//! not from what the `AsyncFd`s report —, writes them into the `KPipeInval` event after the
+//! fact, enters them in the kernel-side oracle table as regular descriptors issued to that
+//! operation and registers them with the simulated kernel (`simk::add_real_fd`), which from
+//! then on really closes them when it executes a CLOSE naming them or sees `close(2)` on them.
+//! At the end of every history the process descriptor table is compared with the oracle table.
+//!
 //! The observation (diffed against Model/FdTable.v) is what the kernel sees — CLOSE
 //! submissions, `close(2)`, IORING_REGISTER_FILES_UPDATE — and the (kind, number) of every
 //! `AsyncFd` handed out. The oracle does not use the model: it keeps the kernel's own table of
@@ -128,6 +138,9 @@ enum Event {
     DropOp(usize),
     KComplete(usize, u32, u32, bool),
     KFail(usize, i32),
+    /// The kernel refuses the pipe request with EINVAL; the two numbers are what pipe2(2)
+    /// returned in the poll that ran the fallback (filled in afterwards; 0, 0 if it never ran).
+    KPipeInval(usize, u32, u32),
     RingPoll,
     DropFd(usize),
     CloseFd(usize),
@@ -144,6 +157,7 @@ fn coq_event(e: &Event) -> String {
         Event::DropOp(i) => format!("DropOp {i}%nat"),
         Event::KComplete(i, a, b, m) => format!("KComplete {i}%nat {a}%N {b}%N {m}"),
         Event::KFail(i, e) => format!("KFail {i}%nat {e}"),
+        Event::KPipeInval(i, a, b) => format!("KPipeInval {i}%nat {a}%N {b}%N"),
         Event::RingPoll => "RingPoll".into(),
         Event::DropFd(h) => format!("DropFd {h}%nat"),
         Event::CloseFd(h) => format!("CloseFd {h}%nat"),
@@ -162,6 +176,7 @@ fn json_event(e: &Event, ops: &[OpSt]) -> String {
         Event::DropOp(i) => format!("drop(op{i}: {})", opname(i)),
         Event::KComplete(i, a, b, m) => format!("kernel completes op{i} with descriptor {a}{}{}", if matches!(ops.get(*i).map(|o| o.cop), Some(Cop::Pipe(_))) { format!(" and {b}") } else { String::new() }, if *m { " (more)" } else { "" }),
         Event::KFail(i, e) => format!("kernel fails op{i} with errno {e}"),
+        Event::KPipeInval(i, a, b) => format!("kernel refuses op{i} with EINVAL (no IORING_OP_PIPE); pipe2(2), if the fallback gets to run, returns {a} and {b}"),
         Event::RingPoll => "ring.poll".into(),
         Event::DropFd(h) => format!("drop(fd{h})"),
         Event::CloseFd(h) => format!("close = fd{h}.close()"),
@@ -203,6 +218,8 @@ struct HandleSt {
     std: bool,
     kind: K,
     num: u32,
+    /// Made by the pipe2(2) fallback of a pipe requested with this kind.
+    fallback_of: Option<K>,
 }
 
 struct OpSt {
@@ -217,6 +234,8 @@ struct OpSt {
     /// not yet taken by the future (generation guidance only).
     posted: usize,
     avail: usize,
+    /// The kernel refused the request with EINVAL (pipe only).
+    inval: bool,
 }
 
 struct CloseSt {
@@ -277,6 +296,18 @@ struct World {
     tags: BTreeSet<String>,
     /// First observation code of the most recent poll of a creator (10 = pending).
     last_poll: i128,
+    /// Per operation: the two real descriptors pipe2(2) created in its fallback.
+    fallback_fds: BTreeMap<usize, (u32, u32)>,
+    /// Process descriptors open when the history started (ring, worker plumbing).
+    base_fds: Vec<i32>,
+}
+
+/// Upper bound of the process descriptor numbers looked at (the harness keeps far below it).
+const FD_SCAN: i32 = 512;
+
+/// The process descriptor table, asked of the real kernel.
+fn open_fds() -> Vec<i32> {
+    (0..FD_SCAN).filter(|fd| unsafe { libc::fcntl(*fd, libc::F_GETFD) } != -1).collect()
 }
 
 fn describe(fd: &AsyncFd) -> (K, i128) {
@@ -434,7 +465,7 @@ impl World {
                 .map(|(d, _)| format!("{} {}", d.1.coq(), d.0))
                 .collect();
             self.fail(format!(
-                "op{i} ({}) handed out an AsyncFd reporting {} descriptor {num}, but the kernel returned [{}] for it",
+                "op{i} ({}) handed out an AsyncFd reporting {} descriptor {num}, but what the kernel (or pipe2(2) in the fallback) returned for it is [{}]",
                 self.ops[i].cop.name(),
                 k.coq(),
                 pending.join(", ")
@@ -537,7 +568,7 @@ impl World {
 
     fn push_handle(&mut self, obj: HObj, std: bool) {
         let (kind, num) = describe(obj.fd());
-        self.handles.push(HandleSt { obj: Some(obj), std, kind, num: num.max(0) as u32 });
+        self.handles.push(HandleSt { obj: Some(obj), std, kind, num: num.max(0) as u32, fallback_of: None });
     }
 
     fn do_adopt(&mut self, fd: u32) {
@@ -574,12 +605,16 @@ impl World {
             Cop::ToFd(h) => Fut::One(Box::pin(self.href(h).to_file_descriptor())),
         };
         self.tags.insert(cop.tag().into());
-        self.ops.push(OpSt { cop, fut: Some(fut), ud: None, started: false, finished: false, posted: 0, avail: 0 });
+        self.ops.push(OpSt { cop, fut: Some(fut), ud: None, started: false, finished: false, posted: 0, avail: 0, inval: false });
     }
 
     fn do_poll_op(&mut self, i: usize) {
         let before = simk::with(|s| s.sq_pending());
         let waker = self.wakes.waker(i as u64);
+        // A refused pipe: this poll may run the pipe2(2) fallback. What it creates is read off
+        // the process descriptor table, independently of what the future returns.
+        let scan = self.ops[i].inval && !self.ops[i].finished && self.ops[i].fut.is_some();
+        let fds_before = if scan { open_fds() } else { Vec::new() };
         let Some(fut) = self.ops[i].fut.as_mut() else { return };
         let r = std::panic::catch_unwind(std::panic::AssertUnwindSafe(|| match fut {
             Fut::One(f) => match poll_once(f.as_mut(), &waker) {
@@ -608,6 +643,30 @@ impl World {
             }
         }));
         let multi = matches!(self.ops[i].cop, Cop::Multi(_));
+        if scan {
+            let created: Vec<i32> = open_fds().into_iter().filter(|fd| !fds_before.contains(fd)).collect();
+            for fd in &created {
+                simk::add_real_fd(*fd);
+            }
+            let requested = match self.ops[i].cop {
+                Cop::Pipe(k) => k,
+                _ => K::Regular,
+            };
+            match created.as_slice() {
+                [] => {}
+                [a, b] => {
+                    // pipe2(2): the read end gets the lower number.
+                    self.fallback_fds.insert(i, (*a as u32, *b as u32));
+                    self.oracle_issue((*a as u32, K::Regular), Some(i));
+                    self.oracle_issue((*b as u32, K::Regular), Some(i));
+                    self.tags.insert(format!("pipe-fallback:pipe2-ran:requested-{}", requested.coq()));
+                    if !matches!(r, Ok(PollOut::Fds(_))) {
+                        self.fail(format!("polling op{i} created process descriptors {a} and {b} (pipe2 fallback) but returned no AsyncFd for them"));
+                    }
+                }
+                other => self.fail(format!("polling op{i} (refused pipe) created process descriptors {other:?}: expected the two of pipe2(2)")),
+            }
+        }
         let out = match r {
             Ok(o) => o,
             Err(_) => {
@@ -663,6 +722,10 @@ impl World {
                     self.oracle_handout(i, k, num);
                     self.tags.insert(format!("handed-out:{}:{}", &self.ops[i].cop.tag()[3..], k.coq()));
                     self.push_handle(HObj::Fd(Box::new(fd)), false);
+                    if let (true, Cop::Pipe(req)) = (self.fallback_fds.contains_key(&i), self.ops[i].cop) {
+                        self.handles.last_mut().unwrap().fallback_of = Some(req);
+                        self.tags.insert(format!("pipe-fallback:handed-out:requested-{}:as-{}", req.coq(), k.coq()));
+                    }
                 }
                 if !multi {
                     self.ops[i].finished = true;
@@ -731,6 +794,21 @@ impl World {
         let _ = self.drain();
     }
 
+    /// The kernel does not know IORING_OP_PIPE: `-EINVAL`, nothing is created.
+    fn do_kpipe_inval(&mut self, i: usize) {
+        let Some((req, sqe)) = self.inflight_sqe(i) else { return };
+        if sqe.opcode != abi::OP_PIPE {
+            return;
+        }
+        simk::with(|s| s.complete(req, -libc::EINVAL, 0));
+        self.ops[i].posted += 1;
+        self.ops[i].inval = true;
+        if let Cop::Pipe(k) = self.ops[i].cop {
+            self.tags.insert(format!("pipe-fallback:refused:requested-{}", k.coq()));
+        }
+        let _ = self.drain();
+    }
+
     fn ring_poll_once(&mut self) {
         let ring = self.ring.as_mut().unwrap();
         let r = std::panic::catch_unwind(std::panic::AssertUnwindSafe(|| ring.poll(Some(Duration::ZERO))));
@@ -767,6 +845,10 @@ impl World {
     }
 
     fn do_drop_fd(&mut self, h: usize) {
+        if let (Some(req), true) = (self.handles[h].fallback_of, self.handles[h].obj.is_some() && !self.borrowed(h)) {
+            let how = if self.room() { "queue-room" } else { "queue-full" };
+            self.tags.insert(format!("pipe-fallback-fd:requested-{}:drop:{how}", req.coq()));
+        }
         let before = simk::with(|s| s.sq_pending());
         let obj = self.handles[h].obj.take();
         let r = std::panic::catch_unwind(std::panic::AssertUnwindSafe(move || drop(obj)));
@@ -780,6 +862,9 @@ impl World {
 
     fn do_close_fd(&mut self, h: usize) {
         let Some(HObj::Fd(b)) = self.handles[h].obj.take() else { return };
+        if let Some(req) = self.handles[h].fallback_of {
+            self.tags.insert(format!("pipe-fallback-fd:requested-{}:close()", req.coq()));
+        }
         let desc = (self.handles[h].num, self.handles[h].kind);
         let before = simk::with(|s| s.sq_pending());
         let fut = Box::pin((*b).close());
@@ -851,6 +936,7 @@ impl World {
             Event::DropOp(i) => self.do_drop_op(*i),
             Event::KComplete(i, a, b, m) => self.do_kcomplete(*i, *a, *b, *m),
             Event::KFail(i, e) => self.do_kfail(*i, *e),
+            Event::KPipeInval(i, _, _) => self.do_kpipe_inval(*i),
             Event::RingPoll => {
                 self.do_ring_poll();
                 return;
@@ -932,7 +1018,7 @@ impl World {
                 };
                 let regs: Vec<usize> = live.iter().copied().filter(|&h| self.handles[h].kind == K::Regular).collect();
                 let dirs: Vec<usize> = live.iter().copied().filter(|&h| self.handles[h].kind == K::Direct).collect();
-                let mut options: Vec<u8> = vec![0, 0, 1, 1, 2];
+                let mut options: Vec<u8> = vec![0, 0, 1, 1, 2, 2];
                 if !live.is_empty() {
                     options.extend([3, 4]);
                 }
@@ -981,6 +1067,10 @@ impl World {
         let multi = matches!(self.ops[i].cop, Cop::Multi(_));
         let k = World::requested_kind(&sqe);
         let pair = sqe.opcode == abi::OP_PIPE;
+        if pair && r.chance(1, 2) {
+            // A kernel without IORING_OP_PIPE; what pipe2(2) returns is filled in afterwards.
+            return Some(Event::KPipeInval(i, 0, 0));
+        }
         let a = k.and_then(|k| self.lowest_free(k, None));
         let b = if pair { k.and_then(|k| self.lowest_free(k, a)) } else { Some(0) };
         if fail || a.is_none() || b.is_none() {
@@ -1101,6 +1191,8 @@ fn one_case(r: &mut Rng, silent: &Arc<Mutex<Option<String>>>) -> Case {
         ever: BTreeSet::new(),
         tags: BTreeSet::new(),
         last_poll: 0,
+        fallback_fds: BTreeMap::new(),
+        base_fds: open_fds(),
     };
     let mut events: Vec<Event> = Vec::new();
     for _ in 0..n_events {
@@ -1113,6 +1205,39 @@ fn one_case(r: &mut Rng, silent: &Arc<Mutex<Option<String>>>) -> Case {
     }
     if w.violation.is_none() {
         w.wind_down(&mut events);
+    }
+    // What pipe2(2) returned is known now: complete the refusal events.
+    for e in events.iter_mut() {
+        if let Event::KPipeInval(i, a, b) = e {
+            match w.fallback_fds.get(i) {
+                Some((x, y)) => (*a, *b) = (*x, *y),
+                None => {
+                    let req = match w.ops[*i].cop {
+                        Cop::Pipe(k) => k.coq(),
+                        _ => "?",
+                    };
+                    w.tags.insert(format!("pipe-fallback:no-pipe2(future-gone):requested-{req}"));
+                }
+            }
+        }
+    }
+    // The process descriptor table against the oracle's table: every process descriptor that
+    // appeared during the history is one the oracle knows as open (a regular descriptor made by
+    // pipe2(2)), and every one it knows as open is open.
+    if w.violation.is_none() {
+        let now = open_fds();
+        let appeared: Vec<i32> = now.iter().copied().filter(|fd| !w.base_fds.contains(fd)).collect();
+        for fd in appeared {
+            if !w.ktab.contains_key(&(fd as u32, K::Regular)) {
+                w.fail(format!("process descriptor {fd} is open at the end of the history and the kernel-side table does not have it: it was closed the wrong way (as another kind / number) or never handed to anybody"));
+            }
+        }
+        let real: Vec<u32> = w.fallback_fds.values().flat_map(|(a, b)| [*a, *b]).collect();
+        for n in real {
+            if w.ktab.contains_key(&(n, K::Regular)) && !now.contains(&(n as i32)) {
+                w.fail(format!("process descriptor {n} (pipe2 fallback) is closed in the process although no close of it was seen"));
+            }
+        }
     }
 
     // ---- the oracle's verdict: what is still open in the kernel's table, with the ring alive --------
@@ -1167,6 +1292,11 @@ fn one_case(r: &mut Rng, silent: &Arc<Mutex<Option<String>>>) -> Case {
     let _ = std::panic::catch_unwind(std::panic::AssertUnwindSafe(move || drop(ring)));
     simk::retire(ring_fd);
     let _ = simk::take_closes();
+    // Real descriptors nothing closed (known findings, or a violation): not to be inherited by
+    // the next history of this worker.
+    for fd in simk::take_real_fds() {
+        unsafe { libc::close(fd) };
+    }
 
     let mut coq = format!("{{| fc_cap := {cap}%N; fc_nslots := {nslots}%N; fc_events := [");
     let mut json = format!("{{\"sq_entries\":{cap},\"direct_slots\":{nslots},\"events\":[");
@@ -1198,6 +1328,7 @@ fn one_case(r: &mut Rng, silent: &Arc<Mutex<Option<String>>>) -> Case {
                 Event::DropClose(_) => "ev:drop-close-future",
                 Event::DropOp(_) => "ev:drop-creator",
                 Event::KFail(..) => "ev:kernel-error",
+                Event::KPipeInval(..) => "ev:pipe-refused-einval",
                 _ => continue,
             }
             .into(),
